@@ -8,6 +8,7 @@ VERIF = os.path.dirname(os.path.dirname(os.path.abspath(__file__)))
 REPO = os.environ.get('MIASMX_REPO', '/repo')
 NPROC = int(os.environ.get('VERIF_JOBS', '0')) or min(16, os.cpu_count() or 1)
 GUARD = 'MIASMX_VERIF'
+SHARD_TIMEOUT = int(os.environ.get('VERIF_SHARD_TIMEOUT', '3000'))
 
 _scratch = None
 
@@ -64,7 +65,13 @@ def import_x86():
     return ia32_arch
 
 
+class HarnessError(Exception):
+    pass
+
+
 def harness_error(msg):
+    if multiprocessing.current_process().name != 'MainProcess':
+        raise HarnessError(msg)          # a worker must not exit: the pool would wait for it forever
     sys.stdout.flush()
     sys.stderr.write('HARNESS-ERROR: %s\n' % msg)
     sys.stderr.flush()
@@ -175,7 +182,13 @@ def run_sharded(func, args=(), nshards=None, procs=None):
     ctx = multiprocessing.get_context('fork')
     sys.stdout.flush()
     with ctx.Pool(procs) as pool:
-        for r in pool.imap_unordered(_shard_entry, [(func, s, nshards, args) for s in range(nshards)]):
+        it = pool.imap_unordered(_shard_entry, [(func, s, nshards, args) for s in range(nshards)])
+        for _ in range(nshards):
+            try:
+                r = it.next(timeout=SHARD_TIMEOUT)
+            except multiprocessing.TimeoutError:
+                pool.terminate()
+                harness_error('a shard did not finish within %d s (worker died or hung)' % SHARD_TIMEOUT)
             if isinstance(r, tuple):
                 pool.terminate()
                 harness_error(r[1])
